@@ -1,5 +1,6 @@
 import PsyVerif.Model.SymMaths
 import PsyVerif.Lemmas.SymMaths
+import PsyVerif.Lemmas.SymMathsComplete
 import Mathlib.Tactic.Ring
 import Mathlib.Tactic.FieldSimp
 import Mathlib.Data.Rat.Floor
@@ -145,6 +146,87 @@ theorem C17_expand_preserves {brk : Bool} {e : IExpr} {p : Poly} (hf : frag brk 
   unfold modelExpand at h
   rw [normQ_sound _ h, C17_hom hf]
 
+/-- Expressions of the fragment never meet a zero divisor: the partial theorems need no definedness hypothesis. -/
+theorem C17_frag_defined {brk : Bool} {e : IExpr} (h : frag brk e = true) (ρ : Env) : defined e ρ = true := by
+  induction e with
+  | lit n => rfl
+  | var v => rfl
+  | neg a ih => simp only [frag] at h; simp [defined, ih h]
+  | add a b iha ihb => simp only [frag, Bool.and_eq_true] at h; simp [defined, iha h.1, ihb h.2]
+  | sub a b iha ihb => simp only [frag, Bool.and_eq_true] at h; simp [defined, iha h.1, ihb h.2]
+  | mul a b iha ihb => simp only [frag, Bool.and_eq_true] at h; simp [defined, iha h.1, ihb h.2]
+  | div a b => simp [frag] at h
+  | pow a k ih => simp only [frag, Bool.and_eq_true] at h; simp [defined, ih h.2]
+  | mod a b => simp [frag] at h
+  | min a b iha ihb => simp only [frag, Bool.and_eq_true] at h; simp [defined, iha h.1, ihb h.2]
+  | max a b iha ihb => simp only [frag, Bool.and_eq_true] at h; simp [defined, iha h.1, ihb h.2]
+  | arr1 f i ih => simp only [frag] at h; simp [defined, ih h]
+  | arr2 f i j ihi ihj => simp only [frag, Bool.and_eq_true] at h; simp [defined, ihi h.1, ihj h.2]
+
+/-- A writer that brackets left-nested powers translates every tree to itself. -/
+theorem C17_toSym_bracketed_id (e : IExpr) : toSym true e = e := by
+  unfold toSym
+  induction e <;> simp_all [toSymAux, wrapPow]
+
+/-! ### completeness of the normal form (the verdicts of the model are exact on its domain) -/
+
+/-- outputs of `normQ` are canonical: monomials sorted, terms strictly sorted, no zero coefficient -/
+theorem C17_normPoly_canonical {e : IExpr} {p : Poly} (h : normQ e = some p) : Canon p := normQ_canon e h
+
+/-- Converse of `C17_equal_partial`: if two expressions of the fragment (whose translated difference is in the domain
+of `normQ`) have the same Fortran value for every integer valuation, the model's `equal` says True.  (ℤ is infinite:
+polynomials that agree on ℤ have the same normal form.) -/
+theorem C17_equal_complete {brk : Bool} {e1 e2 : IExpr} {d : Poly} (h1 : frag brk e1 = true) (h2 : frag brk e2 = true)
+    (hd : normQ (.sub (toSym brk e1) (toSym brk e2)) = some d) (h : ∀ ρ : Env, evalF e1 ρ = evalF e2 ρ) :
+    modelEqual brk e1 e2 = true := by
+  have hd0 : d = [] := by
+    apply canon_vanish_int (normQ_canon _ hd)
+    intro ρ
+    rw [normQ_sound _ hd]
+    simp only [evalQ]
+    rw [C17_hom h1, C17_hom h2, h ρ, sub_self]
+  unfold modelEqual
+  rw [hd, hd0]
+
+/-- Converse of `C17_never_equal_partial`: a difference that is the same non-zero integer at every integer valuation
+is recognised by the model's `never_equal`. -/
+theorem C17_never_equal_complete {brk : Bool} {e1 e2 : IExpr} {d : Poly} {c : Int} (hc : c ≠ 0)
+    (h1 : frag brk e1 = true) (h2 : frag brk e2 = true)
+    (hd : normQ (.sub (toSym brk e1) (toSym brk e2)) = some d) (h : ∀ ρ : Env, evalF e1 ρ - evalF e2 ρ = c) :
+    modelNever brk e1 e2 = true := by
+  have hcan := normQ_canon _ hd
+  have hcq : (c : Rat) ≠ 0 := by exact_mod_cast hc
+  have hev : ∀ ρ : Env, evalPoly d (liftEnv ρ) = (c : Rat) := by
+    intro ρ
+    rw [normQ_sound _ hd]
+    simp only [evalQ]
+    rw [C17_hom h1, C17_hom h2, ← h ρ]; push_cast; ring
+  have hz : insTerm [] (-(c : Rat)) d = [] := by
+    apply canon_vanish_int (insTerm_canon _ (by simp [MonoSorted]) hcan)
+    intro ρ
+    rw [evalPoly_insTerm, hev ρ, evalMono_nil]; ring
+  have hd1 : d = [([], (c : Rat))] := by
+    cases d with
+    | nil => simp [insTerm, hcq] at hz
+    | cons t p =>
+      obtain ⟨m', c'⟩ := t
+      simp only [insTerm] at hz
+      split at hz
+      · next hm =>
+        subst hm
+        split at hz
+        · next hs =>
+          subst hz
+          have : c' = (c : Rat) := by linarith
+          rw [this]
+        · cases hz
+      · split at hz
+        · split at hz <;> cases hz
+        · cases hz
+  unfold modelNever
+  rw [hd, hd1]
+  simp [hc]
+
 /-- All four clauses hold when restricted to the fragment. -/
 theorem C17_statement_partial (brk : Bool) :
     (∀ e1 e2, frag brk e1 = true → frag brk e2 = true → SymEq (toSym brk e1) (toSym brk e2) → EqualOK e1 e2) ∧
@@ -262,6 +344,9 @@ example : modelSolve false 0 (var 1) (var 1) = .independent := by decide +kernel
 example : modelSolve false 0 (mul (var 0) (var 0)) (lit 4) = .unknown := by decide +kernel
 -- … of `C17_expand_preserves`: (i+j)² expands to i² + 2ij + j²
 example : modelExpand false (pow (add (var 0) (var 1)) 2) = some [([0, 0], 1), ([0, 1], 2), ([1, 1], 1)] := by
+  decide +kernel
+-- hypotheses of `C17_equal_complete` are satisfiable: the domain condition holds on a non-trivial pair
+example : (normQ (.sub (toSym false (pow (add (var 0) (lit 1)) 2)) (toSym false (add (mul (var 0) (var 0)) (add (mul (lit 2) (var 0)) (lit 1)))))).isSome = true := by
   decide +kernel
 -- the contract theorems apply to MIN/MAX/array accesses, which `normQ` refuses
 example : frag false (min (arr1 0 (add (var 0) (lit 1))) (max (var 1) (arr2 1 (var 0) (var 1)))) = true := by decide
